@@ -1614,7 +1614,13 @@ func (fe *FactEngine) mustTrackedCalls(ins ssa.Instruction) []ssa.Instruction {
 				if _, isGo := i.(*ssa.Go); isGo {
 					continue
 				}
-				if _, _, ok := fe.trackedCallee(nil, c); !ok {
+				tname, _, ok := fe.trackedCallee(nil, c)
+				if !ok {
+					continue
+				}
+				if _, startedGo := ins.(*ssa.Go); startedGo && tname == "cancel" && blockingBefore(g, i) {
+					// a goroutine that first waits for some event may never get to the cancel: it does
+					// not discharge "the cancel function is called" for its creator
 					continue
 				}
 				target := i
@@ -1638,6 +1644,36 @@ func (a *Alt) Called(name string, match func(*Term) bool) bool {
 	for k, t := range a.terms {
 		if strings.HasPrefix(k, pre) && a.facts[k] && match(t) {
 			return true
+		}
+	}
+	return false
+}
+
+// blockingBefore: some channel receive, send or blocking select of g can execute before instruction at.
+func blockingBefore(g *ssa.Function, at ssa.Instruction) bool {
+	for _, b := range g.Blocks {
+		for idx, i := range b.Instrs {
+			blocking := false
+			switch x := i.(type) {
+			case *ssa.UnOp:
+				blocking = x.Op == token.ARROW
+			case *ssa.Select:
+				blocking = x.Blocking
+			case *ssa.Send:
+				blocking = true
+			}
+			if !blocking || i == at {
+				continue
+			}
+			if b == at.Block() {
+				if idx < instrIndex(at) {
+					return true
+				}
+				continue
+			}
+			if blockReaches(b, at.Block()) {
+				return true
+			}
 		}
 	}
 	return false
